@@ -108,7 +108,8 @@ META = {
     },
     "C17": {
         "level": "exploration",
-        "budget": {"quick": 40, "thorough": 600},
+        "budget": {"quick": 35, "thorough": 540},
+        "race_budget": {"quick": 12, "thorough": 120},
         "rule": ("each run = the real server.Server.Serve on a simulated listener with one of the 16 set/unset combinations of OnServeFunc/OnErrorFunc/OnAcceptConnFunc/"
                  "OnCloseConnFunc (stratified x controller action), callbacks and handlers being scheduling points with simulated work; 0-5 client tasks that connect after a "
                  "delay, send whole or fragmented requests (handler work 0-200 ms, some panicking), idle, close abruptly or hold the connection; OnAccept rejecting every n-th "
